@@ -275,11 +275,16 @@ Definition node_problems (m : omodel) (imports : list (string * Z)) (n : onode) 
   ((match node_problem (om_functions m) imports n with Some p => [(on_op n, p)] | None => [] end)
    ++ map (fun p => (on_op n, p)) (subgraph_refs_problem m n))%list.
 
-(* a function's imports must not contradict the model's: same version for a domain both import *)
+(* a function's imports must not contradict the model's: same version for a domain whose operators ONNX
+   defines ("", "ai.onnx", "ai.onnx.ml") -- the version of a model-local function domain carries no meaning *)
 Definition import_problems (m : omodel) (f : ofunction) : list (string * string) :=
-  flat_map (fun dv => match opset_of (om_opsets m) (fst dv) with
-                      | Some v => if v =? snd dv then [] else [(of_name f, "function-imports-other-version:" ++ fst dv)]
-                      | None => [(of_name f, "function-imports-domain-the-model-does-not:" ++ fst dv)]
+  flat_map (fun dv => match domain_table (fst dv) with
+                      | None => []
+                      | Some _ =>
+                        match opset_of (om_opsets m) (fst dv) with
+                        | Some v => if v =? snd dv then [] else [(of_name f, "function-imports-other-version:" ++ fst dv)]
+                        | None => [(of_name f, "function-imports-domain-the-model-does-not:" ++ fst dv)]
+                        end
                       end) (of_opsets f).
 
 Definition all_problems (m : omodel) : list (string * string) :=
@@ -338,14 +343,16 @@ Proof.
   apply node_problems_nil in H2. apply node_problem_sound. tauto.
 Qed.
 
-(* ... and a function never declares another version of a domain than the model does *)
+(* ... and a function never declares another version of an ONNX-defined domain than the model does *)
 Theorem opset_ok_function_imports m : opset_ok m = true ->
-  forall f d v, In f (om_functions m) -> In (d, v) (of_opsets f) -> opset_of (om_opsets m) d = Some v.
+  forall f d v, In f (om_functions m) -> In (d, v) (of_opsets f) -> domain_table d <> None ->
+  opset_of (om_opsets m) d = Some v.
 Proof.
-  intros H f d v Hf Hd. apply opset_ok_all in H. unfold all_problems in H.
+  intros H f d v Hf Hd Hdom. apply opset_ok_all in H. unfold all_problems in H.
   apply app_eq_nil in H. destruct H as [_ H].
   pose proof (flat_map_nil _ _ H _ Hf) as H1. apply app_eq_nil in H1. destruct H1 as [_ H1].
   unfold import_problems in H1. pose proof (flat_map_nil _ _ H1 _ Hd) as H2. simpl in H2.
+  destruct (domain_table d); [|congruence].
   destruct (opset_of (om_opsets m) d) as [v'|]; [|discriminate].
   destruct (v' =? v) eqn:E; [|discriminate]. apply Z.eqb_eq in E. now subst.
 Qed.
@@ -577,6 +584,12 @@ Example ex_function_body_checked :
      [mkOG 0 None [] [] [mkON "F" "custom" "call" ["x"] ["y"] []] [] []]
      [mkOF "F" "custom" ["x"] ["y"] [mk_node "BitCast" ["x"] ["y"] [("to", AInt 6)]] [("", 23)] []])
   = Some ("BitCast", "missing-op").
+Proof. vm_compute. reflexivity. Qed.
+Example ex_function_other_standard_version :
+  opset_first_bad (mkOM 10 [("", 23); ("custom", 1)]
+     [mkOG 0 None [] [] [mkON "F" "custom" "call" ["x"] ["y"] []] [] []]
+     [mkOF "F" "custom" ["x"] ["y"] [mk_node "Relu" ["x"] ["y"] []] [("", 21); ("custom", 23)] []])
+  = Some ("F", "function-imports-other-version:").
 Proof. vm_compute. reflexivity. Qed.
 Example ex_undeclared_domain :
   opset_first_bad (mkOM 10 [("", 23)] [mkOG 0 None [] [] [mkON "F" "custom" "call" ["x"] ["y"] []] [] []] [])
